@@ -184,13 +184,12 @@ def flavourDefault : Flavour := .sorted
 
 /-- `doc <hex> value|table`: the flavour of the harness build does not show in the sorted canonical form,
 except through duplicate handling, which cannot occur for parsed documents; the model uses the sorted map. -/
-def doc13 (hx target : String) : String :=
+def doc13 (fl : Flavour) (hx target : String) : String :=
   match bytesOfHex? hx with
   | none => "bad-op"
   | some bytes =>
     if !Spec.Utf8.valid bytes then "not-utf8" else
     if target != "value" && target != "table" then "n/a" else
-    let fl := flavourDefault
     let asValue := target == "value"
     let show? : Option TV → Option String := fun o => o.map plainTV
     -- text routes: one parse, then the target's visitor
@@ -209,12 +208,11 @@ def doc13 (hx target : String) : String :=
       ("dm", show? direct), ("im", show? direct), ("ed", show? direct),
       ("vv", show? viaValue), ("tv", show? viaTable), ("pt", show? viaTable), ("pv", show? viaValue)]
 
-def sval13 (hx target : String) : String :=
+def sval13 (fl : Flavour) (hx target : String) : String :=
   match bytesOfHex? hx with
   | none => "bad-op"
   | some bytes =>
     if target != "value" then "n/a" else
-    let fl := flavourDefault
     let show? : Option TV → Option String := fun o => o.map plainTV
     let single : Option TV := (Value.parseValue bytes).bind fun v => visitValue fl false (presOfVal v)
     -- "x = " ++ text as a document; `Wrap<T>` reads the key `x` and ignores the others
@@ -274,10 +272,10 @@ def dispatch13 : String :=
 
 end C13
 
-def c13 (line : String) : String :=
+def c13With (fl : Flavour) (line : String) : String :=
   match line.splitOn " " with
-  | ["doc", hx, target] => C13.doc13 hx target
-  | ["sval", hx, target] => C13.sval13 hx target
+  | ["doc", hx, target] => C13.doc13 fl hx target
+  | ["sval", hx, target] => C13.sval13 fl hx target
   | ["tval", fl, t] => C13.tval13 fl t
   | ["val", _, _] => "n/a"
   | ["dispatch"] => C13.dispatch13
@@ -285,6 +283,12 @@ def c13 (line : String) : String :=
   | ["typedv", fl, ty, hx] => C13Typed.typed fl ty hx true
   | ["tcheck", fl, target, ty, hx] => C13Typed.tcheck fl target ty hx
   | _ => "bad-op"
+
+/-- the default build (`BTreeMap`) -/
+def c13 (line : String) : String := c13With .sorted line
+/-- the `preserve_order` build (`IndexMap`): the map flavour shows in `doc` / `sval` lines once the private date-time key
+    is present (the first-key test of `ValueVisitor::visit_map` depends on map order) -/
+def c13P (line : String) : String := c13With .insertion line
 
 def c17 (line : String) : String := C13.c17 line
 
